@@ -931,6 +931,8 @@ class MacroProgram(ElementProgram):
                             self.default_marker,
                             literal_false=not boolean
                         )
+                        if msgid is missing and implicit_i18n:
+                            msgid = None
 
                 # Otherwise, it's a static attribute. We don't include it
                 # here if there's one or more "computed" attributes
@@ -941,8 +943,9 @@ class MacroProgram(ElementProgram):
                     value = ast.Constant(
                         text.replace('$$', '$') if text is not None else text
                     )
+                    # (no explicit message id: the value is the id)
                     if msgid is missing and implicit_i18n:
-                        msgid = text
+                        msgid = None
 
             if name is not None:
                 # If translation is required, wrap in a translation
